@@ -32,6 +32,7 @@ Interpretation decisions
 import concurrent.futures as cf
 import copy
 import json
+import pickle
 import shutil
 import tempfile
 
@@ -45,15 +46,22 @@ MAX_LISTED = 12  # violations listed (replay file + VIOLATION line) per clause a
 
 
 def _metas(k):
-    return {0: None, 1: {"func_name": "gen_x", "k": 1}, 2: {"func_name": "gen_y", "grid_shape": np.array([1, 2]), "k": 2}}[k]
+    """generation_meta is NOT part of the value.  3 / 4 (audit class C): the falsy-but-present metadata ({} and a
+    dictionary whose values are all falsy) -- `if self.generation_meta:` is not `is not None`"""
+    return {0: None, 1: {"func_name": "gen_x", "k": 1}, 2: {"func_name": "gen_y", "grid_shape": np.array([1, 2]), "k": 2},
+            3: {}, 4: {"func_name": "", "k": 0, "flag": False, "visited": [], "grid_shape": np.zeros(2, dtype=int)}}[k]  # fmt: skip
+
+
+N_METAS = 5
 
 
 # ------------------------------------------------------------------ building real objects
-def _cfg(name="c09", grid_n=3, n_mazes=1, seed=7, ctor="gen_dfs"):
+def _cfg(name="c09", grid_n=3, n_mazes=1, seed=7, ctor="gen_dfs", **more):
+    """more: maze_ctor_kwargs / endpoint_kwargs / seq_len_min / seq_len_max / applied_filters (all compared fields)"""
     from maze_dataset import MazeDatasetConfig
     from maze_dataset.generation import GENERATORS_MAP
 
-    return MazeDatasetConfig(name=name, grid_n=grid_n, n_mazes=n_mazes, seed=seed, maze_ctor=GENERATORS_MAP[ctor])
+    return MazeDatasetConfig(name=name, grid_n=grid_n, n_mazes=n_mazes, seed=seed, maze_ctor=GENERATORS_MAP[ctor], **copy.deepcopy(more))
 
 
 class RoundTripFailed(Exception):
@@ -66,6 +74,8 @@ def _roundtrip(m, rep):
 
     if rep == "rt_maze":
         return type(m).load(m.serialize())
+    if rep == "rt_pickle":  # (copy.copy / copy.deepcopy of a maze raise TypeError on the unchanged tree: not C09's statement)
+        return pickle.loads(pickle.dumps(m))
     # the dataset routes collect (and clear) generation_meta, which must be present: give the throw-away
     # source object a collectable one (generation_meta is not part of the value)
     R, C = m.connection_list.shape[1:]
@@ -73,6 +83,73 @@ def _roundtrip(m, rep):
     ds = MazeDataset(_cfg(grid_n=int(R), n_mazes=1), [src])
     ser = {"rt_ds_full": ds._serialize_full, "rt_ds_minimal": ds._serialize_minimal, "rt_ds_minimal_cat": ds._serialize_minimal_soln_cat}[rep]()
     return MazeDataset.load(ser).mazes[0]
+
+
+def _strided(x, dtype=np.int64):
+    """the values of x as a NON-CONTIGUOUS view (every second row / the middle column of a larger array)"""
+    x = np.array(x, dtype=dtype)
+    if x.ndim == 1:
+        big = np.full((len(x), 3), 99, dtype=dtype)
+        big[:, 1] = x
+        return big[:, 1]
+    big = np.full((2 * len(x), 4), 99, dtype=dtype)
+    big[::2, 1:3] = x
+    return big[::2, 1:3]
+
+
+def _npints(c, k=0):
+    ts = (np.int64, np.int8, np.int16, np.int32)  # signed only: coordinates may be negative in constructor cases
+    return tuple(ts[(k + i) % len(ts)](v) for i, v in enumerate(c))
+
+
+# representations of ONE coordinate (audit class G: the same value as ndarray of several dtypes incl. float-valued
+# ints and bool, python list / tuple, tuple of numpy scalars of mixed types, non-contiguous view)
+ENDS_CONV = {
+    "ends_int8": lambda x: np.array(x, dtype=np.int8),
+    "ends_int32": lambda x: np.array(x, dtype=np.int32),
+    "ends_int16": lambda x: np.array(x, dtype=np.int16),
+    "ends_uint8": lambda x: np.array(x, dtype=np.uint8),
+    "ends_list": list,
+    "ends_tuple": tuple,
+    "ends_float": lambda x: np.array(x, dtype=float),
+    "ends_float_tuple": lambda x: tuple(float(v) for v in x),
+    "ends_npints": _npints,
+    "ends_strided": _strided,
+    "ends_strided_int8": lambda x: _strided(x, np.int8),
+    "ends_bool": lambda x: np.array(x, dtype=bool),  # only generated for coordinates in {0, 1}
+}
+# representations of a solution
+SOL_CONV = {
+    "sol_int8": lambda s: np.array(s, dtype=np.int8),
+    "sol_int32": lambda s: np.array(s, dtype=np.int32),
+    "sol_int16": lambda s: np.array(s, dtype=np.int16),
+    "sol_uint8": lambda s: np.array(s, dtype=np.uint8),
+    "sol_list": lambda s: [list(c) for c in s],
+    "sol_tuples": lambda s: [tuple(c) for c in s],
+    "sol_tuple_of_tuples": lambda s: tuple(tuple(c) for c in s),
+    "sol_float": lambda s: np.array(s, dtype=float),
+    "sol_npints": lambda s: [_npints(c, k) for k, c in enumerate(s)],
+    "sol_list_of_arrays": lambda s: [np.array(c, dtype=np.int8 if k % 2 else np.int64) for k, c in enumerate(s)],
+    "sol_fortran": lambda s: np.asfortranarray(np.array(s)),
+    "sol_strided": _strided,
+    "sol_strided_int8": lambda s: _strided(s, np.int8),
+    "sol_bool": lambda s: np.array(s, dtype=bool),  # only generated for coordinates in {0, 1}
+}
+RT_ANY = ["rt_maze", "rt_pickle"]
+RT_DS = ["rt_ds_full", "rt_ds_minimal", "rt_ds_minimal_cat"]  # square SolvedMazes only (cfg.grid_n)
+
+
+def reps_of(d, magnitude_ok=True):
+    """every representation that applies to the maze described by d (all of them produce an EQUAL value)"""
+    conn = np.array(d["conn"])
+    R, C = conn.shape[1:]
+    reps = ["conn_view", "conn_fortran"] + RT_ANY
+    small = all(0 <= x <= 1 for c in [d["start"], d["end"]] + list(d["sol"]) for x in c)
+    if d["kind"] == "TargetedLatticeMaze":
+        reps += [r for r in ENDS_CONV if r != "ends_bool" or small]
+    if d["kind"] == "SolvedMaze":
+        reps += [r for r in SOL_CONV if r != "sol_bool" or small] + ["sol_explicit_ends", "sol_explicit_ends_list"] + (RT_DS if R == C else [])
+    return reps
 
 
 def build(d, same=None):
@@ -93,33 +170,14 @@ def build(d, same=None):
     if kind == "LatticeMaze":
         m = mz.LatticeMaze(connection_list=conn, generation_meta=meta)
     elif kind == "TargetedLatticeMaze":
-        conv = {
-            "ends_int8": lambda x: np.array(x, dtype=np.int8),
-            "ends_int32": lambda x: np.array(x, dtype=np.int32),
-            "ends_int16": lambda x: np.array(x, dtype=np.int16),
-            "ends_uint8": lambda x: np.array(x, dtype=np.uint8),
-            "ends_list": list,
-            "ends_tuple": tuple,
-        }.get(rep, np.array)
+        conv = ENDS_CONV.get(rep, np.array)
         m = mz.TargetedLatticeMaze(connection_list=conn, start_pos=conv(d["start"]), end_pos=conv(d["end"]), generation_meta=meta)
     else:
-        sol, kw = d["sol"], {}
-        if rep == "sol_int8":
-            sol = np.array(sol, dtype=np.int8)
-        elif rep == "sol_int32":
-            sol = np.array(sol, dtype=np.int32)
-        elif rep == "sol_int16":
-            sol = np.array(sol, dtype=np.int16)
-        elif rep == "sol_uint8":
-            sol = np.array(sol, dtype=np.uint8)
-        elif rep == "sol_list":
-            sol = [list(c) for c in sol]
-        elif rep == "sol_tuples":
-            sol = [tuple(c) for c in sol]
-        else:
-            sol = np.array(sol)
+        sol, kw = SOL_CONV.get(rep, np.array)(d["sol"]), {}
         if rep == "sol_explicit_ends":
             kw = dict(start_pos=np.array(d["start"]), end_pos=np.array(d["end"]))
+        elif rep == "sol_explicit_ends_list":  # [0, 0] given explicitly is falsy-free but all-zero: `if start_pos:` traps
+            kw = dict(start_pos=list(d["start"]), end_pos=tuple(d["end"]))
         m = mz.SolvedMaze(connection_list=conn, solution=sol, generation_meta=meta, **kw)
     if rep.startswith("rt_"):
         try:
@@ -176,11 +234,16 @@ def tv(fn):
 
 
 def _foreign(tag):
-    return {"None": None, "int": 0, "tuple": (0, 0), "str": "LatticeMaze", "list": [[0, 0]]}[tag]
+    """non-maze operands; the second row (audit class C) are the falsy ones: `if not other:` is not `other is None`"""
+    return {"None": None, "int": 0, "tuple": (0, 0), "str": "LatticeMaze", "list": [[0, 0]],
+            "False": False, "float0": 0.0, "empty_tuple": (), "empty_list": [], "empty_str": "", "empty_dict": {}, "empty_set": frozenset(), "ndarray1": np.zeros(1, dtype=bool)}[tag]  # fmt: skip
+
+
+FALSY_FOREIGN = ["None", "int", "False", "float0", "empty_tuple", "empty_list", "empty_str", "empty_dict", "empty_set", "ndarray1"]
 
 
 # ------------------------------------------------------------------ observation (real code)
-def obs_pair(a, b, pa, rel, ad, bd, exp=None, **extra):
+def obs_pair(a, b, pa, rel, ad, bd, exp=None, h0=None, **extra):
     """eq / ne in both orders FIRST, then hashing and set / dict use, then == and != AGAIN in the other order
     (history must not matter: a memo filled by the first comparison or by hashing must not change the answer)"""
     eq, ne, eq_r, ne_r = tv(lambda: a == b), tv(lambda: a != b), tv(lambda: b == a), tv(lambda: b != a)
@@ -193,7 +256,7 @@ def obs_pair(a, b, pa, rel, ad, bd, exp=None, **extra):
     return dict(
         t="pair", rel=rel, exp=(rel in EQUAL_RELS) if exp is None else exp, a=pa, b=proj(b),
         eq=eq, ne=ne, eq_r=eq_r, ne_r=ne_r, eq2=eq2, ne2=ne2, eq_r2=eq_r2, ne_r2=ne_r2,
-        ha=ra, hb=rb, heq=bool(ra == "ok" and rb == "ok" and ha == hb), hstable=bool(ra == "ok" and ra2 == "ok" and ha == ha2),
+        ha=ra, hb=rb, heq=bool(ra == "ok" and rb == "ok" and ha == hb), hstable=bool(ra == "ok" and ra2 == "ok" and ha == ha2 and (h0 is None or h0 == ha)),
         set_res=rs, set_n=int(ns) if rs == "ok" else -1, dict_res=rd, dict_n=int(nd) if rd == "ok" else -1,
         arep=ad.get("rep", "copy"), ameta=ad.get("meta", 0), brep=bd.get("rep", "copy"), bmeta=bd.get("meta", 0), **extra,
     )  # fmt: skip
@@ -222,6 +285,8 @@ def observe_group(g):
         out.append(failed if failed else obs_pair(a, b, pa, v["rel"], ad, bd))
     for tag in g.get("foreign", []):
         out.append(obs_foreign(a, pa, tag, ad))
+    if out and out[-1]["t"] in ("pair", "foreign") and proj(a) != pa:  # comparing / hashing must not change the operand (M)
+        out[-1]["amod"] = True
     return out
 
 
@@ -235,21 +300,84 @@ def walk(s, e):
     return p
 
 
+TGT_FORMS = {"array": np.array, "tuple": tuple, "list": list, "int8": lambda x: np.array(x, dtype=np.int8), "int16": lambda x: np.array(x, dtype=np.int16),
+             "uint8": lambda x: np.array(x, dtype=np.uint8), "float": lambda x: np.array(x, dtype=float), "float_tuple": lambda x: tuple(float(v) for v in x),
+             "npints": _npints, "strided": _strided}  # fmt: skip
+WALK_FORMS = {"walk": np.array, "walk_list": lambda w: [list(c) for c in w], "walk_tuples": lambda w: tuple(tuple(c) for c in w), "walk_float": lambda w: np.array(w, dtype=float),
+              "walk_int16": lambda w: np.array(w, dtype=np.int16), "walk_npints": lambda w: [_npints(c, k) for k, c in enumerate(w)], "walk_strided": _strided,
+              "walk_fortran": lambda w: np.asfortranarray(np.array(w))}  # fmt: skip
+# audit class E: the caller's OWN mutable objects are passed, compared with a snapshot after the call, and then
+# OVERWRITTEN before anything is read from the result
+ALIAS_OWN = {"alias_array": lambda x: np.array(x, dtype=np.int64), "alias_int8": lambda x: np.array(x, dtype=np.int8), "alias_list": lambda x: [list(c) if isinstance(c, (list, tuple)) else c for c in x]}
+TGT_ALIAS_FORMS = ["alias_array", "alias_int8", "alias_list", "alias_from_lattice_maze"]
+SOL_ALIAS_FORMS = ["alias_array", "alias_int8", "alias_list", "alias_explicit_ends", "alias_from_lattice_maze"]
+
+
 def ctor_call(kind, conn, s, e, form):
     if kind == "TargetedLatticeMaze":
         if form == "from_lattice_maze":
             return mz.TargetedLatticeMaze.from_lattice_maze(mz.LatticeMaze(connection_list=conn), np.array(s), np.array(e))
-        conv = {"array": np.array, "tuple": tuple, "int8": lambda x: np.array(x, dtype=np.int8), "int16": lambda x: np.array(x, dtype=np.int16), "uint8": lambda x: np.array(x, dtype=np.uint8)}[form]
+        conv = TGT_FORMS[form]
         return mz.TargetedLatticeMaze(connection_list=conn, start_pos=conv(s), end_pos=conv(e))
     if form == "pair":
         return mz.SolvedMaze(connection_list=conn, solution=np.array([s, e]))
-    if form == "walk":
-        return mz.SolvedMaze(connection_list=conn, solution=np.array(walk(s, e)))
+    if form in WALK_FORMS:
+        return mz.SolvedMaze(connection_list=conn, solution=WALK_FORMS[form](walk(s, e)))
     if form == "walk_explicit_ends":
         return mz.SolvedMaze(connection_list=conn, solution=np.array(walk(s, e)), start_pos=np.array(s), end_pos=np.array(e))
+    if form == "walk_explicit_ends_list":
+        return mz.SolvedMaze(connection_list=conn, solution=np.array(walk(s, e)), start_pos=list(s), end_pos=tuple(e))
     if form == "from_lattice_maze":
         return mz.SolvedMaze.from_lattice_maze(mz.LatticeMaze(connection_list=conn), [tuple(c) for c in walk(s, e)])
     raise ValueError(form)
+
+
+def _same_arg(x, snap):
+    if type(x) is not type(snap):
+        return False
+    if isinstance(x, np.ndarray):
+        return x.dtype == snap.dtype and x.shape == snap.shape and bool(np.array_equal(x, snap))
+    return x == snap
+
+
+def _overwrite(x, v):
+    if isinstance(x, np.ndarray):
+        x[...] = v
+    elif x and isinstance(x[0], list):
+        for c in x:
+            c[:] = [v] * len(c)
+    else:
+        x[:] = [v] * len(x)
+
+
+def alias_ctor(kind, conn, s, e, form):
+    """-> (res, object | None, argmod, hash_stable).  The arguments are the caller's own mutable objects; after the
+    call they are compared with their snapshot (argmod) and then overwritten with an out-of-grid value (-5); the
+    hash is taken before and after the overwrite (the object itself is never touched)."""
+    own = ALIAS_OWN.get(form, ALIAS_OWN["alias_array"])
+    if kind == "TargetedLatticeMaze":
+        args = [own(s), own(e)]
+        if form == "alias_from_lattice_maze":
+            call = lambda: mz.TargetedLatticeMaze.from_lattice_maze(mz.LatticeMaze(connection_list=conn), args[0], args[1])  # noqa: E731
+        else:
+            call = lambda: mz.TargetedLatticeMaze(connection_list=conn, start_pos=args[0], end_pos=args[1])  # noqa: E731
+    else:
+        args = [own(walk(s, e))]
+        if form == "alias_explicit_ends":
+            args += [own(s), own(e)]
+            call = lambda: mz.SolvedMaze(connection_list=conn, solution=args[0], start_pos=args[1], end_pos=args[2])  # noqa: E731
+        elif form == "alias_from_lattice_maze":
+            call = lambda: mz.SolvedMaze.from_lattice_maze(mz.LatticeMaze(connection_list=conn), args[0])  # noqa: E731
+        else:
+            call = lambda: mz.SolvedMaze(connection_list=conn, solution=args[0])  # noqa: E731
+    snap = copy.deepcopy(args)
+    res, m = mz.outcome(call)
+    argmod = not all(_same_arg(x, y) for x, y in zip(args, snap))
+    h0 = mz.outcome(lambda: hash(m)) if res == "ok" else None
+    for x in args:
+        _overwrite(x, -5)
+    h1 = mz.outcome(lambda: hash(m)) if res == "ok" else None
+    return res, m, argmod, bool(h0 == h1)
 
 
 def observe_ctor(c):
@@ -259,9 +387,17 @@ def observe_ctor(c):
     conn[1, :, -1] = False
     out = []
     for form in c["forms"]:
-        res, m = mz.outcome(lambda: ctor_call(c["kind"], conn, c["start"], c["end"], form))
+        extra = {}
+        if form.startswith("alias_"):
+            res, m, argmod, hst = alias_ctor(c["kind"], conn, c["start"], c["end"], form)
+            extra = dict(argmod=argmod, hstable=hst)
+            if c["kind"] == "SolvedMaze":  # the solution held AFTER the caller overwrote its own array
+                want = walk(c["start"], c["end"])
+                extra["sol_kept"] = bool(res != "ok" or [[int(a), int(b)] for a, b in m.solution] == want)
+        else:
+            res, m = mz.outcome(lambda: ctor_call(c["kind"], conn, c["start"], c["end"], form))
         out.append(dict(t="ctor", kind=c["kind"], R=R, C=C, start=list(c["start"]), end=list(c["end"]), form=form, res=res,
-                        got_start=[int(x) for x in m.start_pos] if res == "ok" else [], got_end=[int(x) for x in m.end_pos] if res == "ok" else []))  # fmt: skip
+                        got_start=[int(x) for x in m.start_pos] if res == "ok" else [], got_end=[int(x) for x in m.end_pos] if res == "ok" else [], **extra))  # fmt: skip
     return out
 
 
@@ -277,12 +413,29 @@ def _cfg_variant(base_kw, v):
         kw["ctor"] = "gen_wilson"
     elif v == "n_mazes":
         kw["n_mazes"] += 1
+    # audit class C: a field that is falsy on ONE side (`a.x or default`, `if a.x and a.x != b.x`)
+    elif v == "seed0":
+        kw["seed"] = 0 if kw["seed"] != 0 else 1
+    elif v == "name_empty":
+        kw["name"] = "" if kw["name"] != "" else "x"
+    elif v == "grid_n0":
+        kw["grid_n"] = 0 if kw["grid_n"] != 0 else 1
+    elif v == "ctor_kwargs":  # {} vs a dictionary whose only value is falsy
+        kw["maze_ctor_kwargs"] = {"p": 0.0} if not kw.get("maze_ctor_kwargs") else {}
+    elif v == "endpoint_kwargs":
+        kw["endpoint_kwargs"] = {"deadend_start": False} if not kw.get("endpoint_kwargs") else {}
+    elif v == "seq_len_min0":
+        kw["seq_len_min"] = 0 if kw.get("seq_len_min", 1) != 0 else 1
+    elif v == "filters_falsy":  # [] vs one recorded filter whose args / kwargs are empty
+        kw["applied_filters"] = [dict(name="path_length", args=(), kwargs={})] if not kw.get("applied_filters") else []
     return kw
 
 
 def _cfgrec(c):
+    """every COMPARED field of the configuration (n_mazes is logged separately as na / nb)"""
     return dict(name=str(c.name), grid_n=int(c.grid_n), seed=int(c.seed), ctor=str(c.maze_ctor.__name__),
-                filters=[str(f.get("name")) + ":" + json.dumps(f.get("kwargs", {}), sort_keys=True, default=str) for f in c.applied_filters])  # fmt: skip
+                filters=[str(f.get("name")) + ":" + json.dumps(f.get("kwargs", {}), sort_keys=True, default=str) for f in c.applied_filters],
+                more=json.dumps([c.maze_ctor_kwargs, c.endpoint_kwargs, c.seq_len_min, c.seq_len_max, [list(f.get("args", ())) for f in c.applied_filters]], sort_keys=True, default=str))  # fmt: skip
 
 
 def _ds_record(dsa, dsb, cv, **extra):
@@ -314,9 +467,15 @@ def observe_ds(c):
     A, failed, ua = _build_all([c["pool"][i - 1] for i in c["la"]])
     if failed:
         return failed
-    base_kw = dict(name="c09", grid_n=max(c["R"], c["C"]), n_mazes=len(A), seed=7, ctor="gen_dfs")
+    base_kw = dict(dict(name="c09", grid_n=max(c["R"], c["C"]), n_mazes=len(A), seed=7, ctor="gen_dfs"), **c.get("base_kw", {}))
     ca = _cfg(**base_kw)
-    ra, dsa = mz.outcome(lambda: MazeDataset(ca, A))
+    # audit class G / E: the maze sequence as the caller's list (emptied after the call), a tuple, a one-shot generator
+    seq = {"list": list, "tuple": tuple, "gen": lambda x: (m for m in x), "own_list": list}
+    sa, sb = c.get("seqs", ["list", "list"])
+    A_arg = seq[sa](A)
+    ra, dsa = mz.outcome(lambda: MazeDataset(ca, A_arg))
+    if sa == "own_list":
+        A_arg.clear()
     out = []
     for v in c["cfgs"]:
         B, failed, ub = _build_all([c["pool"][i - 1] for i in c["lb"]])
@@ -324,8 +483,12 @@ def observe_ds(c):
             out += failed
             continue
         cb = ca if v == "same" else _cfg(**_cfg_variant(base_kw, v))
-        rb, dsb = mz.outcome(lambda: MazeDataset(cb, B))
-        reps = dict(ra=[d.get("rep", "copy") for d in ua], rb=[d.get("rep", "copy") for d in ub], ea=[d.get("meta", 0) for d in ua], eb=[d.get("meta", 0) for d in ub])
+        B_arg = seq[sb](B)
+        rb, dsb = mz.outcome(lambda: MazeDataset(cb, B_arg))
+        if sb == "own_list":
+            B_arg.clear()
+        reps = dict(ra=[d.get("rep", "copy") for d in ua], rb=[d.get("rep", "copy") for d in ub], ea=[d.get("meta", 0) for d in ua], eb=[d.get("meta", 0) for d in ub],
+                    seqs=[sa, sb], bk=json.dumps(c.get("base_kw", {}), sort_keys=True))
         if ra == "ok" and rb == "ok":
             out.append(_ds_record(dsa, dsb, v, **reps))
         else:  # the dataset constructor raised: recorded as the outcome of the comparison
@@ -395,7 +558,7 @@ def _rand_desc(rng, maxn, kind=None, square=False, shape=None):
     if rng.random() < 0.15:  # boundary bits are part of the raw value as well
         conn[int(rng.integers(2)), -1 if rng.random() < 0.5 else int(rng.integers(R)), -1] = True
     kind = kind or KINDS[int(rng.choice(3, p=[0.2, 0.3, 0.5]))]
-    d = dict(kind=kind, conn=mz.raw(conn), start=[], end=[], sol=[], meta=int(rng.integers(3)), rep="copy")
+    d = dict(kind=kind, conn=mz.raw(conn), start=[], end=[], sol=[], meta=int(rng.integers(N_METAS)), rep="copy")
     if kind != "LatticeMaze":
         s = [int(rng.integers(R)), int(rng.integers(C))]
         if kind == "SolvedMaze":
@@ -430,13 +593,9 @@ def _mutate(rng, d, rel):
     if rel == "copy":
         return dict(d, rep="copy")
     if rel == "meta":
-        return dict(d, meta=(d["meta"] + 1 + int(rng.integers(2))) % 3, rep="copy")
+        return dict(d, meta=(d["meta"] + 1 + int(rng.integers(N_METAS - 1))) % N_METAS, rep="copy")
     if rel == "rep":
-        reps = ["conn_view", "conn_fortran", "rt_maze"]
-        if kind == "TargetedLatticeMaze":
-            reps += ["ends_int8", "ends_list", "ends_tuple", "ends_int32"]
-        if kind == "SolvedMaze":
-            reps += ["sol_int8", "sol_int32", "sol_list", "sol_tuples", "sol_explicit_ends", "rt_ds_full"] + (["rt_ds_minimal", "rt_ds_minimal_cat"] * 2 if R == C else [])
+        reps = reps_of(d) + (["rt_ds_minimal", "rt_ds_minimal_cat"] * 2 if (kind == "SolvedMaze" and R == C) else [])
         return dict(d, rep=reps[int(rng.integers(len(reps)))])
     if rel == "bit":
         c2 = conn.copy()
@@ -543,6 +702,8 @@ def rand_ctor(args):
         ax = int(rng.integers(2))
         tgt[ax] = int(rng.choice([-1, -2, [R, C][ax], [R, C][ax] + 1]))
     forms = ["array", "tuple", "int8", "from_lattice_maze"] if kind == "TargetedLatticeMaze" else ["walk", "pair", "walk_explicit_ends", "from_lattice_maze"]
+    new = (["list", "float", "float_tuple", "npints", "strided"] + TGT_ALIAS_FORMS) if kind == "TargetedLatticeMaze" else ([f for f in WALK_FORMS if f != "walk"] + ["walk_explicit_ends_list"] + SOL_ALIAS_FORMS)
+    forms = forms + [new[(k // 2) % len(new)], new[(k // 2 + 4) % len(new)]]
     return observe_ctor(dict(t="ctor", kind=kind, R=R, C=C, start=s, end=e, forms=forms))
 
 
@@ -570,7 +731,8 @@ def rand_ds(args):
         lb = la[::-1]
     else:
         lb = [int(rng.integers(1, len(pool) + 1)) for _ in range(len(la))]
-    return observe_ds(dict(t="ds", R=n, C=n, pool=pool, la=la, lb=lb, cfgs=["same", "copy", ["name", "grid_n", "seed", "ctor", "n_mazes"][k % 5]]))
+    return observe_ds(dict(t="ds", R=n, C=n, pool=pool, la=la, lb=lb, cfgs=["same", "copy", ["name", "grid_n", "seed", "ctor", "n_mazes"][k % 5], DS_FALSY_CFGS[k % len(DS_FALSY_CFGS)]],
+                           seqs=DS_SEQS[(k // 2) % len(DS_SEQS)], base_kw=[{}, dict(seed=0), dict(name="")][k % 3]))
 
 
 # ------------------------------------------------------------------ CLASS A: histories (state that must not matter)
@@ -641,6 +803,8 @@ def rand_history(args):
     seed, k, maxn = args
     rng = np.random.default_rng([seed, 17, k])
     d1 = _rand_desc(rng, maxn, kind=KINDS[k % 3])
+    if d1["kind"] == "SolvedMaze" and (k // 3) % 3 < 2:  # audit class H: every use on a length-1 / length-2 solution
+        d1 = _with_sol(d1, d1["sol"][: 1 + (k // 3) % 3])
     R, C = len(d1["conn"][0]), len(d1["conn"][0][0])
     d2 = _reflow(d1, R, C + 1)
     out = []
@@ -740,6 +904,13 @@ def rand_ds_history(args):
         if r4 == "ok":
             rec("both_filtered", fa_, fb_)
             rec("originals_after_filters")
+            r5, fb2 = mz.outcome(lambda: fb_.filter_by.path_length(min_length=1))  # audit class F: the same filter twice in a row
+            if r5 == "ok":
+                rec("once_vs_twice_filtered", fa_, fb2)
+                r6, fa2 = mz.outcome(lambda: fa_.filter_by.path_length(min_length=1))
+                if r6 == "ok":
+                    rec("both_twice_filtered", fa2, fb2)
+                    rec("twice_vs_once_filtered", fa2, fb_)
     return out
 
 
@@ -867,6 +1038,248 @@ def big_dedup(args):
     return observe_dedup(dict(t="dedup", descs=descs, same_as=same_as))
 
 
+# ------------------------------------------------------------------ CLASSES C-H (second audit): directed cases
+# H: the SHORTEST solutions (length 1, length 2, start == end) x no connection at all / every connection x EVERY
+#    representation, metadata and library round trip (not a random one); D: oblong shapes in both orientations with
+#    sides differing by >= 2, 1xN, Nx1, 1x1; C: falsy metadata, falsy foreign operands, cell [0, 0] / index 0;
+#    E: objects built from the caller's own arrays that are overwritten afterwards; G: every representation.
+SHORT_SHAPES = [(1, 1), (1, 2), (2, 1), (2, 2), (3, 3), (2, 5), (5, 2), (3, 7), (7, 3), (1, 6), (6, 1)]
+
+
+def _lattice(R, C, full):
+    conn = np.zeros((2, R, C), dtype=bool)
+    if full:
+        conn[0, : R - 1, :] = True
+        conn[1, :, : C - 1] = True
+    return mz.raw(conn)
+
+
+def short_bases(R, C, full):
+    conn = _lattice(R, C, full)
+    first, last = [0, 0], [R - 1, C - 1]
+    nb = [0, 1] if C > 1 else ([1, 0] if R > 1 else None)
+    mk = lambda kind, s, e, sol: dict(kind=kind, conn=conn, start=s, end=e, sol=sol, meta=0, rep="copy")  # noqa: E731
+    out = [mk("LatticeMaze", [], [], [])]
+    out += [mk("TargetedLatticeMaze", s, e, []) for s, e in ((first, first), (last, last), (first, last), (last, first))[: 4 if nb else 1]]
+    sols = [[first], [first, first]] + ([[last], [first, nb], [nb, first], [first, nb, first]] if nb else [[first, first, first]])
+    out += [_with_sol(mk("SolvedMaze", [], [], []), s) for s in sols]
+    return out
+
+
+def _own(x, how):
+    return {"int64": lambda v: np.array(v, dtype=np.int64), "int8": lambda v: np.array(v, dtype=np.int8), "list": lambda v: [list(c) if isinstance(c, list) else c for c in v]}[how](x)
+
+
+def alias_pair(d, how, mode, **extra):
+    """audit class E on the value level: x is built from the caller's OWN start / end / solution objects; hash(x) is
+    taken; the caller then overwrites ITS objects (mode 'out': with -5, mode 'in': with the other end of the grid /
+    the reversed solution) and x is compared with a fresh object of the described value.  x itself is never touched:
+    its hash must not change (hash_changes_over_time), it must not hold an end outside the grid, and (M) it should
+    still be the described value."""
+    conn = np.array(d["conn"], dtype=bool)
+    R, C = conn.shape[1:]
+    if d["kind"] == "TargetedLatticeMaze":
+        args = [_own(d["start"], how), _own(d["end"], how)]
+        res, x = mz.outcome(lambda: mz.TargetedLatticeMaze(connection_list=conn, start_pos=args[0], end_pos=args[1]))
+        new = [[R - 1 - d["start"][0], C - 1 - d["start"][1]], [R - 1 - d["end"][0], C - 1 - d["end"][1]]]
+    else:
+        args = [_own(d["sol"], how)]
+        res, x = mz.outcome(lambda: mz.SolvedMaze(connection_list=conn, solution=args[0]))
+        new = [[[R - 1 - c[0], C - 1 - c[1]] for c in d["sol"]][::-1]]
+    if res != "ok":  # a well-formed maze refused: judged like every failed build
+        return [dict(t="build", kind=d["kind"], conn=d["conn"], start=d["start"], end=d["end"], sol=d["sol"], rep="alias_" + how, meta=0, res=res)]
+    _rh, h0 = mz.outcome(lambda: hash(x))
+    for a, v in zip(args, new):
+        if mode == "out":
+            _overwrite(a, -5)
+        elif isinstance(a, np.ndarray):
+            a[...] = np.array(v, dtype=a.dtype)
+        elif a and isinstance(a[0], list):
+            for c, w in zip(a, v):
+                c[:] = w
+        else:
+            a[:] = v
+    fresh, failed, fd = safe_build(dict(d, rep="copy"))
+    if failed:
+        return [failed]
+    ad = dict(d, rep=f"alias_{how}_{mode}")
+    return [obs_pair(x, fresh, proj(x), f"alias:{how}:{mode}", ad, fd, exp=True, h0=h0, **extra)]
+
+
+def short_group(args):
+    R, C, full, bi = args
+    hist = [int(R), int(C), int(full), int(bi)]
+    a = short_bases(R, C, full)[bi]
+    kind = a["kind"]
+    cells = _cells(R, C)
+    other = lambda c: next((x for x in cells[::-1] if x != c), None)  # noqa: E731
+    vs = [dict(rel="same", m=dict(a, rep="same")), dict(rel="copy", m=dict(a))]
+    vs += [dict(rel="meta", m=dict(a, meta=k)) for k in range(1, N_METAS)]
+    vs += [dict(rel="rep", m=dict(a, rep=r, meta=i % N_METAS)) for i, r in enumerate(reps_of(a))]
+    conn = np.array(a["conn"])
+    for idx in sorted({(0, 0, 0), (1, 0, 0), (1, R - 1, C - 1), (0, R - 1, 0)}):
+        c2 = conn.copy()
+        c2[idx] = 1 - c2[idx]
+        vs.append(dict(rel="bit", m=dict(a, conn=c2.tolist())))
+    for sh in {(C, R), (R, C + 1), (R + 1, C), (1, R * C), (R * C, 1)} - {(R, C)}:
+        vs.append(dict(rel="shape", m=_reflow(a, *sh)))
+    s, e = a["start"] or [0, 0], a["end"] or [0, 0]
+    for k2 in KINDS:
+        if k2 != kind:
+            m = dict(a, kind=k2, start=[], end=[], sol=[]) if k2 == "LatticeMaze" else (dict(a, kind=k2, start=s, end=e, sol=[]) if k2 == "TargetedLatticeMaze" else _with_sol(dict(a, kind=k2), a["sol"] or walk(s, e)))
+            vs.append(dict(rel="kind", m=m))
+    if kind == "TargetedLatticeMaze":
+        for fld in ("start", "end"):
+            if other(a[fld]):
+                vs.append(dict(rel=fld, m=dict(a, **{fld: other(a[fld])})))
+        if a["start"] != a["end"]:
+            vs.append(dict(rel="swap", m=dict(a, start=a["end"], end=a["start"])))
+    if kind == "SolvedMaze":
+        sol = a["sol"]
+        for k in range(len(sol)):
+            if other(sol[k]):
+                vs.append(dict(rel="solcell", m=_with_sol(a, sol[:k] + [other(sol[k])] + sol[k + 1 :])))
+        vs += [dict(rel="longer", m=_with_sol(a, sol + [sol[-1]])), dict(rel="longer", m=_with_sol(a, [sol[0]] + sol)), dict(rel="longer", m=_with_sol(a, sol + [cells[-1]]))]
+        if len(sol) > 1:
+            vs += [dict(rel="shorter", m=_with_sol(a, sol[1:])), dict(rel="shorter", m=_with_sol(a, sol[:-1]))]
+            if sol != sol[::-1]:
+                vs.append(dict(rel="reversed", m=_with_sol(a, sol[::-1])))
+    for v in vs:
+        if v["rel"] not in EQUAL_RELS:
+            v["m"] = dict(v["m"], rep="copy")
+    out = observe_group(dict(t="pairs", a=a, vs=vs, foreign=FALSY_FOREIGN + ["tuple", "str", "list"]))
+    if kind != "LatticeMaze":
+        for how in ("int64", "int8", "list"):
+            for mode in ("out", "in"):
+                out += alias_pair(a, how, mode)
+    for r in out:
+        r["hist"], r["tier"] = hist, "short"
+    return out
+
+
+def short_group_jobs():
+    return [(R, C, full, bi) for R, C in SHORT_SHAPES for full in (0, 1) if full == 0 or R * C > 1 for bi in range(len(short_bases(R, C, full)))]
+
+
+DS_LISTS = [[], [1], [2], [3], [1, 1], [1, 2], [2, 1], [1, 3], [3, 1], [1, 4], [1, 2, 3]]
+DS_FALSY_CFGS = ["seed0", "name_empty", "grid_n0", "ctor_kwargs", "endpoint_kwargs", "seq_len_min0", "filters_falsy", "n_mazes"]
+DS_SEQS = [["list", "list"], ["tuple", "list"], ["list", "tuple"], ["gen", "list"], ["own_list", "tuple"], ["tuple", "tuple"], ["gen", "gen"], ["own_list", "own_list"]]
+
+
+def short_ds(args):
+    """datasets whose mazes all have the shortest solutions (the concatenated-solution serialization sees only
+    length-1 paths), configurations with falsy fields on one or on both sides, and the maze sequence handed over as
+    the caller's list (emptied afterwards) / a tuple / a one-shot generator"""
+    R, C, i, j = args
+    conn = _lattice(R, C, 0)
+    mk = lambda sol, **kw: _with_sol(dict(dict(kind="SolvedMaze", conn=conn, start=[], end=[], sol=[], meta=0, rep="copy"), **kw), sol)  # noqa: E731
+    last = [R - 1, C - 1]
+    pool = [mk([[0, 0]]), mk([[0, 0]], rep="rt_ds_minimal_cat" if R == C else "sol_int8", meta=3), mk([[0, 0], [0, 0]]), mk([last]) if R * C > 1 else mk([[0, 0]] * 3)]
+    n = i * len(DS_LISTS) + j
+    cfgs = ["same" if n % 4 == 0 else "copy", DS_FALSY_CFGS[n % len(DS_FALSY_CFGS)], DS_FALSY_CFGS[(n // 3 + 3) % len(DS_FALSY_CFGS)]]
+    base_kw = [{}, dict(name="", seed=0), dict(seed=0, maze_ctor_kwargs={}, endpoint_kwargs={}), dict(name="", endpoint_kwargs={"deadend_start": False}, seq_len_min=0)][n % 4]
+    out = observe_ds(dict(t="ds", R=R, C=C, pool=pool, la=DS_LISTS[i], lb=DS_LISTS[j], cfgs=cfgs, seqs=DS_SEQS[(n // 2) % len(DS_SEQS)], base_kw=base_kw))
+    return out
+
+
+def short_ds_jobs():
+    return [(R, C, i, j) for R, C in ((1, 1), (2, 2), (3, 3), (2, 5), (5, 2)) for i in range(len(DS_LISTS)) for j in range(len(DS_LISTS))]
+
+
+def directed_ctor_cases():
+    """every start over -2..R+1 x -2..C+1 on oblong / degenerate grids x (end = [0, 0] | start = last cell | end = start)
+    x every argument form (half of the plain forms per point, every aliasing form)"""
+    out = []
+    for R, C in [(1, 1), (2, 5), (5, 2), (3, 7), (7, 1), (1, 4)]:
+        pts = [[r, c] for r in range(-2, R + 2) for c in range(-2, C + 2)]
+        for n, p in enumerate(pts):
+            for q, (s, e) in enumerate(((p, [0, 0]), ([R - 1, C - 1], p), (p, p))):
+                neg = any(x < 0 for x in s + e)
+                tf = [f for f in TGT_FORMS if not (neg and f == "uint8")]
+                sf = list(WALK_FORMS) + ["pair", "walk_explicit_ends", "walk_explicit_ends_list", "from_lattice_maze"]
+                out.append(dict(t="ctor", kind="TargetedLatticeMaze", R=R, C=C, start=s, end=e, forms=tf[(n + q) % 2 :: 2] + ["from_lattice_maze"][: (n + q) % 2] + TGT_ALIAS_FORMS))
+                out.append(dict(t="ctor", kind="SolvedMaze", R=R, C=C, start=s, end=e, forms=sf[(n + q) % 2 :: 2] + SOL_ALIAS_FORMS))
+    return out
+
+
+def _pairrec(a, b, rel, exp, **extra):
+    return obs_pair(a, b, proj(a), rel, dict(rep=extra.pop("arep", "factory")), dict(rep=extra.pop("brep", "copy")), exp=exp, **extra)
+
+
+def _direct(p):
+    """the maze with projection p built DIRECTLY through its constructor (no factory, no metadata)"""
+    return build(dict(p, meta=0, rep="copy"))
+
+
+def rand_factory(args):
+    """audit class F: objects that come from the library's FACTORIES (dataset generation with generation metadata
+    present / already collected, from_pixels / from_ascii / from_tokens, from_lattice_maze,
+    from_targeted_lattice_maze, load) against the same values built directly through the constructors; datasets
+    generated twice, against a directly constructed twin, against a reloaded one and against the collected one.
+    The oracle judges every record from the projections of the objects it is given: exp is only the M-label."""
+    from maze_dataset import MazeDataset
+
+    seed, k, maxn = args
+    rng = np.random.default_rng([seed, 21, k])
+    n, nm = int(rng.integers(2, maxn + 1)), int(rng.integers(1, 4))
+    kw = dict(name="c09f", grid_n=n, n_mazes=nm, seed=int(rng.integers(0, 3)), ctor=["gen_dfs", "gen_wilson"][k % 2])  # seed 0 included
+    hist = dict(hist=[int(seed), int(k), int(maxn)], tier="factory")
+    r1, ds1 = mz.outcome(lambda: MazeDataset.generate(_cfg(**kw)))
+    r2, ds2 = mz.outcome(lambda: MazeDataset.generate(_cfg(**kw)))
+    if r1 != "ok" or r2 != "ok":
+        return []  # generation is another property's business
+    out = [_ds_record(ds1, ds2, "fact:generated_twice", **hist)]
+    ps = [proj(m) for m in ds1.mazes]
+    twin = MazeDataset(_cfg(**kw), [_direct(p) for p in ps])
+    out.append(_ds_record(ds1, twin, "fact:generated_vs_constructed", **hist))
+    stale = MazeDataset(_cfg(**dict(kw, n_mazes=nm + 5)), tuple(_direct(p) for p in ps))  # stale n_mazes, tuple argument
+    out.append(_ds_record(stale, ds1, "fact:constructed_stale_n_vs_generated", **hist))
+    tok = _tokenizer(n)
+    for i, (m, p) in enumerate(zip(ds1.mazes, ps)):
+        out.append(_pairrec(m, twin.mazes[i], "fact:generated_vs_constructed", True, **hist))
+        out.append(_pairrec(m, ds2.mazes[i], "fact:generated_twice", True, **hist))
+        lat = mz.LatticeMaze(connection_list=np.array(p["conn"], dtype=bool))
+        tgt = mz.TargetedLatticeMaze(connection_list=np.array(p["conn"], dtype=bool), start_pos=np.array(p["start"]), end_pos=np.array(p["end"]))
+        facts = {
+            "from_pixels": (m, lambda: type(m).from_pixels(m.as_pixels())),
+            "from_ascii": (m, lambda: type(m).from_ascii(m.as_ascii())),
+            "from_tokens": (m, lambda: type(m).from_tokens(m.as_tokens(tok), tok)),
+            "tgt_from_pixels": (tgt, lambda: mz.TargetedLatticeMaze.from_pixels(tgt.as_pixels())),
+            "lat_from_pixels": (lat, lambda: mz.LatticeMaze.from_pixels(lat.as_pixels())),
+            "lat_from_ascii": (lat, lambda: mz.LatticeMaze.from_ascii(lat.as_ascii())),
+            "tgt_from_lattice_maze": (tgt, lambda: mz.TargetedLatticeMaze.from_lattice_maze(m, m.start_pos, m.end_pos)),
+            "from_targeted_lattice_maze": (m, lambda: mz.SolvedMaze.from_targeted_lattice_maze(tgt)),
+            "from_targeted_lattice_maze_given": (m, lambda: mz.SolvedMaze.from_targeted_lattice_maze(tgt, [tuple(c) for c in p["sol"]])),
+            "from_lattice_maze": (m, lambda: mz.SolvedMaze.from_lattice_maze(lat, [tuple(c) for c in p["sol"]])),
+        }
+        for name, (ref, f) in facts.items():
+            r, x = mz.outcome(f)
+            if r != "ok" or not hasattr(x, "connection_list"):
+                continue  # a failing conversion is another property's business
+            rx, px = mz.outcome(lambda: proj(x))
+            if rx != "ok":
+                continue
+            out.append(_pairrec(ref, x, "fact:" + name, px == proj(ref), brep="factory", **hist))
+            rd, y = mz.outcome(lambda: _direct(px))
+            if rd == "ok":
+                out.append(_pairrec(x, y, "fact_twin:" + name, True, **hist))
+    r3, col = mz.outcome(lambda: ds2.filter_by.collect_generation_meta())
+    if r3 == "ok":
+        out.append(_ds_record(ds1, col, "fact:vs_collected", **hist))
+        for i in range(min(len(ds1.mazes), len(col.mazes))):
+            out.append(_pairrec(ds1.mazes[i], col.mazes[i], "fact:meta_present_vs_collected", True, brep="collected", **hist))
+        r4, col2 = mz.outcome(lambda: col.filter_by.collect_generation_meta())  # already collected, collected again
+        if r4 == "ok":
+            out.append(_ds_record(col, col2, "fact:collected_vs_collected_twice", **hist))
+    r5, ld = mz.outcome(lambda: MazeDataset.load(ds1._serialize_minimal()))
+    if r5 == "ok":
+        out.append(_ds_record(ds1, ld, "fact:vs_loaded_minimal", **hist))
+    return out
+
+
+TIERS = {"short": lambda h: short_group(tuple(h)), "factory": lambda h: rand_factory(tuple(h))}
+
+
 # ------------------------------------------------------------------ canaries (synthetic, independent of the code under test)
 def _first(recs, pred):
     return next((r for r in recs if pred(r)), None)
@@ -953,6 +1366,31 @@ def synthetic_canaries():
             (_mk(dd, hs_ok=False), "unhashable"), (_mk(dd, set_res="raise:TypeError", set_n=-1), "set_raises")]  # fmt: skip
     b = dict(t="build", **S, rep="copy", meta=0, res="raise:ValueError")
     can.append((b, "constructor_rejects_valid_maze"))
+    # ---- second audit (classes C-H): shortest solutions, falsy operands / cfg fields, aliasing forms, sequence kinds
+    S1 = dict(kind="SolvedMaze", conn=[[[0]], [[0]]], start=[0, 0], end=[0, 0], sol=[[0, 0]])  # 1x1, length-1 solution
+    S1b = dict(S1, sol=[[0, 0], [0, 0]])
+    p1 = dict(t="pair", rel="rep", a=S1, b=copy.deepcopy(S1), **dict(eqr, brep="rt_ds_minimal_cat", bmeta=3), hist=[1, 1, 0, 5], tier="short")
+    p2 = dict(t="pair", rel="longer", a=S1, b=S1b, **ner, hist=[1, 1, 0, 5], tier="short")
+    controls += [p1, p2, _mk(p1, amod=False)]
+    can += [(_mk(p1, eq="False"), "eq_truth_table"), (_mk(p1, heq=False), "hash_inconsistent"), (_mk(p1, set_n=2), "set_dedup"), (_mk(p2, eq="True"), "eq_truth_table"), (_mk(p2, dict_n=1), "dict_dedup"),
+            (_mk(p1, amod=True), "M:operand_changed_by_comparison"), (_mk(p1, rel="alias:int64:in", hstable=False), "hash_changes_over_time"),
+            (_mk(p1, rel="alias:int8:out", a=dict(S1, start=[-5, -5]), b=dict(S1, start=[-5, -5])), "holds_end_outside_grid")]  # fmt: skip
+    f2 = _mk(f, a=S1, other="empty_list")
+    controls.append(f2)
+    can += [(_mk(f2, eq_r="True"), "eq_truth_table"), (_mk(f2, ne="raise:TypeError"), "eq_raises"), (_mk(f2, amod=True), "M:operand_changed_by_comparison")]
+    al = dict(t="ctor", kind="SolvedMaze", R=2, C=5, start=[1, 4], end=[0, 0], form="alias_int8", res="ok", got_start=[1, 4], got_end=[0, 0], argmod=False, hstable=True, sol_kept=True)
+    alr = dict(t="ctor", kind="TargetedLatticeMaze", R=5, C=2, start=[1, 2], end=[0, 0], form="alias_list", res="raise:ValueError", got_start=[], got_end=[], argmod=False, hstable=True)
+    controls += [al, alr]
+    can += [(_mk(al, got_start=[-5, -5]), "holds_end_outside_grid"), (_mk(al, got_end=[-5, -5]), "holds_end_outside_grid"), (_mk(al, hstable=False), "hash_changes_over_time"),
+            (_mk(al, sol_kept=False), "M:solution_not_as_given"), (_mk(al, argmod=True), "M:constructor_modified_argument"), (_mk(alr, argmod=True), "M:constructor_modified_argument"),
+            (_mk(alr, res="ok", got_start=[1, 2], got_end=[0, 0]), "accepts_end_outside_grid"), (_mk(alr, start=[2, 1], res="raise:ValueError"), "rejects_end_inside_grid")]  # fmt: skip
+    cm = dict(cf_, name="", seed=0, more='[{}, {}, 1, 512, []]')
+    d2 = _mk(d, ca=cm, cb=dict(cm), ma=[S1], mb=[dict(S1)], ra=["copy"], rb=["rt_ds_minimal_cat"], ea=[0], eb=[3], seqs=["tuple", "list"], bk='{"name": "", "seed": 0}')
+    d3 = _mk(d2, cb=dict(cm, more='[{"p": 0.0}, {}, 1, 512, []]'), ceq="False", eq="False", ne="True", eq_r="False", ne_r="True", eq2="False", eq_r2="False")
+    d4 = _mk(d2, ma=[], mb=[], ra=[], rb=[], ea=[], eb=[], na=0, nb=0)
+    controls += [d2, d3, d4]
+    can += [(_mk(d2, eq="False"), "ds_eq_truth_table"), (_mk(d2, ne_r="True"), "ds_ne_truth_table"), (_mk(d3, eq="True"), "ds_eq_truth_table"), (_mk(d3, eq_r2="True"), "ds_eq_truth_table_when_repeated"),
+            (_mk(d3, ceq="True"), "M:cfg_eq_model"), (_mk(d4, eq="False"), "ds_eq_truth_table"), (_mk(d4, mb=[S1], rb=["copy"], eb=[0]), "ds_eq_truth_table")]  # fmt: skip
     return [copy.deepcopy(x) for x in controls], [(copy.deepcopy(x), cl) for x, cl in can]
 
 
@@ -1158,6 +1596,34 @@ def main(chk: lib.Check) -> int:
             chk.sample({k: x[k] for k in ("t", "kind", "R", "C", "start", "end", "form", "res")})
         judge(chk, recs + big, "hist_big", "class A: used / edited / filtered objects compared with fresh, reloaded and different ones after every step (A-B-A over two grids); "
               "class B: >=128 / >=256 cells, solution cells and coordinates differing only beyond int8 / uint8 boundaries, grids 128 and 256 in the bounds check, datasets and duplicate lists of 127..300 mazes")
+        # ---- (C) audit classes C-H: directed shortest / oblong / falsy / aliasing / representation / factory cases
+        del recs, big
+        recs = _flat(lib.pmap(short_group, short_group_jobs(), chunksize=2))
+        x = _first(recs, lambda r: r["t"] == "pair" and r["rel"].startswith("alias:"))
+        if x:
+            chk.sample({k: x[k] for k in ("t", "rel", "arep", "eq", "heq", "hstable", "hist")} | {"a_start": x["a"]["start"], "a_sol": x["a"]["sol"]})
+        x = _first(recs, lambda r: r["t"] == "pair" and r["brep"] == "rt_ds_minimal_cat" and len(r["a"]["sol"]) == 1)
+        if x:
+            chk.sample({k: x[k] for k in ("t", "rel", "brep", "bmeta", "eq", "heq", "set_n", "hist")} | {"a_sol": x["a"]["sol"]})
+        chk.notes["directed_short_records"] = len(recs)
+        dsr = _flat(lib.pmap(short_ds, short_ds_jobs(), chunksize=8))
+        x = _first(dsr, lambda r: r["t"] == "ds" and r["seqs"] == ["tuple", "list"] and r["eq"] == "True")
+        if x:
+            chk.sample({k: x[k] for k in ("t", "cv", "ca", "cb", "seqs", "bk", "eq", "ne", "rb")})
+        dct = _flat(lib.pmap(observe_case, directed_ctor_cases(), chunksize=64))
+        x = _first(dct, lambda r: r["t"] == "ctor" and r["form"] == "alias_int8" and r["res"] == "ok" and r["R"] != r["C"])
+        if x:
+            chk.sample({k: x[k] for k in ("t", "kind", "R", "C", "start", "end", "form", "res", "got_start", "got_end", "argmod", "hstable")})
+        nf = 500 if thorough else 60
+        fac = _flat(lib.pmap(rand_factory, [(chk.seed, k, 5) for k in range(nf)], chunksize=2))
+        x = _first(fac, lambda r: r["t"] == "pair" and r["rel"] == "fact:from_pixels")
+        if x:
+            chk.sample({k: x[k] for k in ("t", "rel", "exp", "eq", "heq", "set_n", "hist")})
+        chk.notes["directed_records"] = dict(short_pairs=len(recs), short_ds=len(dsr), ctor=len(dct), factory=len(fac))
+        judge(chk, recs + dsr + dct + fac, "directed", "classes C-H: shortest solutions (length 1 / 2, start == end) x empty / full lattice x EVERY representation, metadata (incl. {} and all-falsy) and "
+              "round trip on 1x1 .. 3x7 / 7x3 grids; falsy non-maze operands; objects built from the caller's own arrays that are overwritten afterwards; constructor over -2..R+1 x -2..C+1 on "
+              "oblong grids x every argument form incl. float-valued, numpy-scalar, strided and caller-owned ones; datasets of shortest mazes x falsy configuration fields x list / tuple / "
+              "generator / caller-owned sequences; factory-made objects (generate, from_pixels / from_ascii / from_tokens / from_*_maze, collected metadata) against directly constructed twins")
     finally:
         shutil.rmtree(tmp, ignore_errors=True)
     chk.notes["violations_listed_by_kind_and_clause"] = chk.notes.pop("_listed", {})
@@ -1183,6 +1649,8 @@ def reobserve(case):
     """re-run the stored case against the real code (every build goes through safe_build: a raising library
     is an observation here as well)"""
     t = case["t"]
+    if case.get("tier"):  # a record of a directed / factory group: the whole group is re-run
+        return TIERS[case["tier"]](case["hist"])
     if case.get("hist"):  # a record of a history: the whole history is re-run (the step alone means nothing)
         return (rand_history if t == "pair" else rand_ds_history)(tuple(case["hist"]))
     if t == "pair":
@@ -1201,7 +1669,8 @@ def reobserve(case):
         pool = [_desc(p, r, e) for p, r, e in zip(case["ma"] + case["mb"], case["ra"] + case["rb"], case["ea"] + case["eb"])]
         na = len(case["ma"])
         R = case["ca"]["grid_n"]
-        out = observe_ds(dict(R=R, C=R, pool=pool, la=list(range(1, na + 1)), lb=list(range(na + 1, len(pool) + 1)), cfgs=[case["cv"]]))
+        out = observe_ds(dict(R=R, C=R, pool=pool, la=list(range(1, na + 1)), lb=list(range(na + 1, len(pool) + 1)), cfgs=[case["cv"]],
+                              seqs=case.get("seqs", ["list", "list"]), base_kw=json.loads(case.get("bk", "{}"))))
         return [r for r in out if r["t"] != "foreign"]
     if t == "dedup":
         return observe_dedup(dict(descs=[_desc(p, r, e) for p, r, e in zip(case["ms"], case["reps"], case["metas"])], same_as=case["same_as"]))
